@@ -501,3 +501,17 @@ pub fn u_nested_rep() -> Universe {
     w.dedup();
     Universe::from_words("U_nest: ((x^i y)^j z)^k and (((x^2 y)^2 z)^2 w)^2 over {. + a b \\ e-acute - 1}, i,j,k in {2,3}", w, 1)
 }
+
+/// Prefix x suffix words whose trie order differs from their raw-text order once a conversion is applied: prefixes
+/// {1, U+0663 (a 2-byte digit), x, e-acute (a 2-byte letter), aa, aaa, bc} x suffixes {a, bc, x, my}; all sets of <= m words.
+/// Equivalent inner states then list their children in different orders, and a merged range edge (aa / aaa under r)
+/// sits next to plain ones.
+pub fn u_prefix_suffix2(m: usize) -> Universe {
+    let mut w = vec![];
+    for p in ["1", "\u{663}", "x", "\u{e9}", "aa", "aaa", "bc"] {
+        for s in ["a", "bc", "x", "my"] {
+            w.push(format!("{p}{s}"));
+        }
+    }
+    Universe::from_words(&format!("U_ps2{{1,U+0663,x,e9,aa,aaa,bc}}x{{a,bc,x,my}} sets of <={m}"), w, m)
+}
